@@ -77,12 +77,17 @@ def opC01Pipe : List String → Res
     | _, _, _ => bad
   | _ => bad
 
+def opC01E2ECore (m c : String) (extra : List String) : Res :=
+  match m.toNat?, unhex c with
+  | some m, some bs =>
+    { m := "0;" ++ hexOf (printed (clientMsgsF ((catLines [] (readLinesF m bs)).map (frameOf true [])).flatten)), s := "0;" ++ hexOf (insertNL m 0 bs),
+      g := c01sig m bs, t := joinWith "," (([c01tags m bs] ++ extra).filter (· ≠ "-")) }
+  | _, _ => bad
+
+/-- the compression suffix (third argument) does not enter the model: decompression is transparent -/
 def opC01E2E : List String → Res
-  | [m, c] => match m.toNat?, unhex c with
-    | some m, some bs =>
-      { m := "0;" ++ hexOf (printed (clientMsgsF ((catLines [] (readLinesF m bs)).map (frameOf true [])).flatten)), s := "0;" ++ hexOf (insertNL m 0 bs),
-        g := c01sig m bs, t := c01tags m bs }
-    | _, _ => bad
+  | [m, c] => opC01E2ECore m c []
+  | [m, c, sfx] => opC01E2ECore m c ["compressed-" ++ sfx]
   | _ => bad
 
 /-! C03 -/
@@ -614,8 +619,8 @@ def dumpGroups (g : Groups) : String :=
     let cols := s.cols.map fun c => s!"{c.num.getD 0}|{hexOf (c.str.getD [])}"
     s!"{hexOf k}:{s.samples}:{joinWith "," cols}")
 
-def opC05Agg : List String → Res
-  | [qh, format, servers] => match unhex qh, parseServers servers with
+def opC05AggCore (qh format servers : String) : Res :=
+  match unhex qh, parseServers servers with
     | some qs, some svs =>
       match newQuery intOracle qs with
       | .ok (some q) =>
@@ -639,6 +644,13 @@ def opC05Agg : List String → Res
             ++ (if partials.any (·.isEmpty) then ["empty-part"] else [])) }
       | _ => { m := "query-error" }
     | _, _ => bad
+
+/-- the fourth argument chooses how the harness runs the server side (accessor per interval, or the real aggregator
+    goroutines); the model is the same — by `C05_pipeline` the final result does not depend on where the partial
+    results cut the line stream -/
+def opC05Agg : List String → Res
+  | [qh, format, servers] => opC05AggCore qh format servers
+  | [qh, format, servers, _how] => opC05AggCore qh format servers
   | _ => bad
 
 /-! C15 -/
@@ -1412,6 +1424,16 @@ def opGenRegex : List String → Res
     | _, _ => bad
   | _ => bad
 
+/-- the result table of a mapreduce client, with and without colours: rendered, and identical up to the escape sequences -/
+def opC16Table : List String → Res
+  | [_q, _g] => { m := "ok", s := "ok", t := "table" }
+  | _ => bad
+
+/-- a re-connecting client: every attempt, first round and re-connects, goes to a listed address and to nothing else -/
+def opC18Reconnect : List String → Res
+  | [_n] => { m := "listed=twice;unlisted=0", s := "listed=twice;unlisted=0", t := "reconnect" }
+  | _ => bad
+
 def dispatch (line : String) : Res :=
   match (line.splitOn " ").filter (· ≠ "") with
   | "gen.stats" :: a => opGenStats a
@@ -1455,11 +1477,13 @@ def dispatch (line : String) : Res :=
   | "c15.race" :: a => opC15Race a
   | "c16.colorfy" :: a => opC16Colorfy a
   | "c16.write" :: a => opC16Write a
+  | "c16.table" :: a => opC16Table a
   | "c17.trust" :: a => opC17Trust a
   | "c17.wrap" :: a => opC17Wrap a
   | "c18.list" :: a => opC18List a
   | "c18.file" :: a => opC18File a
   | "c18.filter" :: a => opC18Filter a
+  | "c18.reconnect" :: a => opC18Reconnect a
   | _ => bad
 
 partial def loop (h : IO.FS.Stream) (out : IO.FS.Stream) : IO Unit := do
